@@ -2091,3 +2091,7 @@ mod tests {
         assert_eq!(reputation.interaction_count, 15);
     }
 }
+
+#[cfg(kani)]
+#[path = "/verif/kani/security_proofs.rs"]
+mod verif_proofs;
